@@ -7,6 +7,7 @@ open Np
 namespace Categorical
 
 set_option linter.unusedSimpArgs false
+set_option linter.unusedSectionVars false
 
 variable {V : Type} [DecidableEq V]
 
@@ -164,5 +165,177 @@ theorem lookup1_perDumpIdx (c : Cat V) (h : c.WF) (d : Nat) :
       rw [List.getElem?_replicate]
       have : d < a := by omega
       simp [this]
+
+/-! ### indexing against the explicit per-dump list -/
+
+/-- entry `d` of an explicit per-dump list (IndexError where the list has no value) -/
+def pickDump (pd : List (Option V)) (d : Int) : Except Err V :=
+  if d < 0 then .error .index else
+  match pd[d.toNat]? with
+  | some (some v) => .ok v
+  | _ => .error .index
+
+def pickMany (pd : List (Option V)) : List Int → Except Err (List V)
+  | [] => pure []
+  | d :: t => do
+    let v ← pickDump pd d
+    let r ← pickMany pd t
+    pure (v :: r)
+
+/-- **Spec of `__getitem__`**: the answer read off the explicit per-dump list `pd` -/
+def specGetitem (pd : List (Option V)) : Key → Except Err (Got V)
+  | .int i => do let v ← pickDump pd i; pure (.one v)
+  | .slice a b st =>
+    match sliceList pd.length a b st with
+    | none => .error .value
+    | some l => do let vs ← pickMany pd l; pure (.many vs)
+  | .mask m =>
+    let dumps : List Int := if m.length = pd.length then (nonzero m).map Int.ofNat
+      else m.map (fun b => if b then 1 else 0)
+    do let vs ← pickMany pd dumps; pure (.many vs)
+  | .list l => do let vs ← pickMany pd l; pure (.many vs)
+
+theorem perDump_length (c : Cat V) (h : c.WF) : c.perDump.length = c.numDumps := by
+  obtain ⟨hs, hlen, _, _⟩ := h
+  have hsorted : c.ev.Pairwise (· ≤ ·) := (strictInc_pairwise _ hs).imp (fun h => Nat.le_of_lt h)
+  simp only [Cat.perDump, List.length_append, List.length_replicate, Cat.numDumps]
+  rw [expand_length c.ev c.values (by simp [Cat.values, hlen]) hsorted]
+  cases hev : c.ev with
+  | nil => rw [hev] at hlen; simp at hlen
+  | cons a rest =>
+    have := sorted_head_le_last rest a (by rw [hev] at hsorted; exact hsorted)
+    simp only [List.headD_cons]
+    omega
+
+theorem lookup1_mem (c : Cat V) (d : Int) (i : Nat) (h : c.lookup1 d = .ok i) : i ∈ c.idx := by
+  simp only [Cat.lookup1] at h
+  split at h
+  · simp at h
+  · simp only [getNat] at h
+    split at h
+    · rename_i v hv
+      simp only [Except.ok.injEq] at h
+      subst h
+      exact List.mem_of_getElem? hv
+    · simp at h
+
+theorem lookup1_neg (c : Cat V) (d : Int) (hd : d < 0) : c.lookup1 d = .error .index := by
+  have : c.ev.takeWhile (fun (e : Nat) => decide ((e : Int) ≤ d)) = [] := by
+    cases hev : c.ev with
+    | nil => rfl
+    | cons a t =>
+      have : ¬ ((a : Int) ≤ d) := by omega
+      simp [List.takeWhile_cons, this]
+  simp [Cat.lookup1, this]
+
+/-- one dump: `unique_values[_lookup(d)]` is entry `d` of the per-dump list -/
+theorem lookup_value (c : Cat V) (h : c.WF) (d : Int) :
+    (do let k ← c.lookup1 d; getNat c.uniq k) = pickDump c.perDump d := by
+  by_cases hd : d < 0
+  · simp [lookup1_neg c d hd, pickDump, hd, bind, Except.bind]
+  · obtain ⟨n, rfl⟩ : ∃ n : Nat, d = (n : Int) := ⟨d.toNat, by omega⟩
+    have hl := lookup1_perDumpIdx c h n
+    simp only [pickDump, hd, if_false, Int.toNat_natCast]
+    rw [perDump_eq_idx, List.getElem?_map]
+    cases hpi : c.perDumpIdx[n]? with
+    | none => simp [hpi] at hl ⊢; simp [hl, bind, Except.bind]
+    | some o =>
+      cases o with
+      | none => simp [hpi] at hl ⊢; simp [hl, bind, Except.bind]
+      | some i =>
+        simp only [hpi] at hl
+        have hmem := lookup1_mem c _ i hl
+        have hlt : i < c.uniq.length := h.2.2.1 i hmem
+        simp [hl, bind, Except.bind, getNat, List.getElem?_eq_getElem hlt]
+
+theorem lookupMany_values (c : Cat V) (h : c.WF) : ∀ (l : List Int),
+    (do let ks ← c.lookupMany l; valuesAt c ks) = pickMany c.perDump l := by
+  intro l
+  induction l with
+  | nil => rfl
+  | cons d t ih =>
+    have h1 := lookup_value c h d
+    simp only [Cat.lookupMany, pickMany]
+    cases hk : c.lookup1 d with
+    | error e =>
+      rw [hk] at h1
+      simp only [bind, Except.bind] at h1 ⊢
+      rw [← h1]
+    | ok k =>
+      rw [hk] at h1
+      simp only [bind, Except.bind] at h1 ih ⊢
+      have hlt : k < c.uniq.length := h.2.2.1 k (lookup1_mem c d k hk)
+      have hg : getNat c.uniq k = .ok (c.uniq[k]'hlt) := by simp [getNat, List.getElem?_eq_getElem hlt]
+      rw [hg] at h1
+      rw [← h1]
+      simp only
+      rw [← ih]
+      cases hr : c.lookupMany t with
+      | error e => rfl
+      | ok r =>
+        simp only [pure, Except.pure, valuesAt, hg, bind, Except.bind]
+
+theorem numDumps_getLast? (c : Cat V) (h : c.WF) : c.ev.getLast? = some c.numDumps := by
+  cases hev : c.ev with
+  | nil => have := h.2.1; rw [hev] at this; simp at this
+  | cons a t =>
+    simp only [Cat.numDumps, hev, List.getLastD_eq_getLast?]
+    rw [List.getLast?_eq_getLast (l := a :: t) (by simp)]
+    rfl
+
+/-- **Indexing by integer, slice, mask or list gives the same answers as the explicit per-dump
+    list**, for every well-formed series and every key (IndexError exactly where the per-dump
+    list has no value: before the first event, past the end, negative dump numbers). -/
+theorem getitem_perDump (c : Cat V) (h : c.WF) (key : Key) :
+    c.getitem key = specGetitem c.perDump key := by
+  have hN := numDumps_getLast? c h
+  have hlen := perDump_length c h
+  cases key with
+  | int i =>
+    have := lookup_value c h i
+    simp only [Cat.getitem, specGetitem]
+    simp only [bind, Except.bind] at this ⊢
+    rw [← this]
+    cases c.lookup1 i with
+    | error e => rfl
+    | ok k => rfl
+  | slice a b st =>
+    simp only [Cat.getitem, specGetitem, hN, hlen]
+    cases sliceList c.numDumps a b st with
+    | none => rfl
+    | some l =>
+      have := lookupMany_values c h l
+      simp only [bind, Except.bind] at this ⊢
+      rw [← this]
+      cases c.lookupMany l with
+      | error e => rfl
+      | ok ks => rfl
+  | mask m =>
+    simp only [Cat.getitem, specGetitem, hN, hlen]
+    have := lookupMany_values c h (if m.length = c.numDumps then (nonzero m).map Int.ofNat
+      else m.map (fun b => if b then 1 else 0))
+    simp only [bind, Except.bind] at this ⊢
+    rw [← this]
+    cases c.lookupMany _ with
+    | error e => rfl
+    | ok ks => rfl
+  | list l =>
+    simp only [Cat.getitem, specGetitem]
+    have := lookupMany_values c h l
+    simp only [bind, Except.bind] at this ⊢
+    rw [← this]
+    cases c.lookupMany l with
+    | error e => rfl
+    | ok ks => rfl
+
+/-- **Comparison operators answer dump by dump on the explicit per-dump list** (every series) -/
+theorem cmp_perDump (c : Cat V) (p : V → Bool) :
+    c.cmpPerDump p = c.perDump.map (fun o => o.map p) := by
+  simp only [Cat.cmpPerDump, Cat.perDump, Cat.values, List.map_append, List.map_replicate, expand_map,
+    List.map_map, Option.map_none]
+  congr 2
+  apply List.map_congr_left
+  intro i _
+  simp [List.getElem?_map]
 
 end Categorical
